@@ -190,7 +190,9 @@ Definition check_overlapping_sprite (p : ppu) (o : oam) (sprite : N) : res (ppu 
   do r <- oam_ppu_read o addr;
   let '(o1, startY) := r in
   if sprite <? 40 then
-    let ov := negb (startY =? 0) && (sub8 startY 16 <=? p_ly p) && (p_ly p <? sub8 startY 8) in
+    (* line := int(ppu.ly); line+16 >= int(startY) && line+8 < int(startY)  (no uint8 wrap: objects partly above the
+       top edge are clipped, not hidden) *)
+    let ov := (startY <=? p_ly p + 16) && (p_ly p + 8 <? startY) in
     Ok (set_overlaps p (Mem.set (p_overlaps p) sprite (b2n ov)), o1)
   else Crash CIndex.
 
